@@ -31,6 +31,14 @@ CLAIMED = {
             "model in TLC, which decides cell text, attributes, cursor, insert-mode and never-scrolls at each frame.",
             "Trusted: TLC, Terminal.tla semantics (DESIGN.md App. E), vf/term.py tokeniser/projection, the palette expectation table.",
             "DESIGN.md §4 C04"),
+    "C13": ("TLA+ contract monitor EventLoopOps.tla; generator model EventLoop.tla (scenarios x abstract loop, every service order) "
+            "model-checked by TLC against the monitor (and deliberately wrong loops refuted); TLC trace validation (EventLoopTrace.tla) of the "
+            "six real loops run under virtual-time selector/poller/clock doubles",
+            "TLC proves the alarm/watch/idle/exception contract satisfiable by a correct loop for every bounded scenario and refutes loops that "
+            "block before idle, fire alarms out of order or serve removed watches; every callback, removal, blocking wait and outcome of the real "
+            "select, asyncio, tornado, twisted, zmq and trio loops on TLC-generated and random scenarios is judged by the same monitor.",
+            "Trusted: TLC, vf/loops.py environment doubles (clock, selector, poller, trio instrument), scenario runner. glib loop not importable.",
+            "DESIGN.md §4 C13"),
 }
 
 NOT_APPLICABLE = {}
